@@ -19,7 +19,14 @@ POOrders == UNION {[1..n -> PONames \cup POAbsent] : n \in 0..K}
 PONames2 == {"a", "a!", "a b", "a<b", "aZ", "a_q", "a_bs", "a&", "b"}
 POProps2 == {S \in SUBSET PONames2 : Cardinality(S) >= 2 /\ Cardinality(S) <= (IF K >= 3 THEN 4 ELSE 3)}
 POOrders2 == {<<>>} \cup {<<x>> : x \in {"a", "aZ", "z"}}
+\* LONG orders: more entries than properties, the absent names ahead of, between and behind the present ones
+\* (whatever bounds the walk over PropertyOrder, it is not the number of properties), duplicates far apart
+POLongNames == {"a", "b", "B", "z", "c"}
+POLongOrders == {o \in UNION {[1..n -> POLongNames] : n \in 3..4} : \A i, j \in DOMAIN o : i # j => o[i] # o[j]}
+                \cup {<<"z", "c", "b", "a", "z">>, <<"a", "z", "c", "a">>, <<"z", "z", "b", "a">>, <<"z", "c", "B", "b", "a">>, <<"c", "z", "b", "B", "a">>}
+POLongProps == {S \in SUBSET {"a", "b", "B"} : S # {}}
 POCases == {[props |-> SetToSeq(S), order |-> o, exp |-> KeyOrder(S, o)] : S \in POProps, o \in POOrders}
+           \cup {[props |-> SetToSeq(S), order |-> o, exp |-> KeyOrder(S, o)] : S \in POLongProps, o \in POLongOrders}
            \cup {[props |-> SetToSeq(S), order |-> o, exp |-> KeyOrder(S, o)] : S \in POProps2, o \in POOrders2}
 
 
